@@ -322,3 +322,25 @@ mod tests {
         assert!(NodeStatus::Bad < NodeStatus::Questionable);
     }
 }
+
+/// Verification hook: raw fields of a node.
+#[cfg(btdht_verif)]
+impl Node {
+    /// (last_request, last_response, last_local_request, refresh_requests)
+    #[allow(clippy::type_complexity)]
+    pub fn verif_raw(
+        &self,
+    ) -> (
+        Option<std::time::Instant>,
+        Option<std::time::Instant>,
+        Option<std::time::Instant>,
+        usize,
+    ) {
+        (
+            self.last_request.map(|t| t.verif_std()),
+            self.last_response.map(|t| t.verif_std()),
+            self.last_local_request.map(|t| t.verif_std()),
+            self.refresh_requests,
+        )
+    }
+}
